@@ -1676,7 +1676,9 @@ def real_samples(
 
     min_pos_value = dtype(fi.smallest_subnormal if include_subnormal else fi.smallest_normal)
     if min_value is None:
-        if max_value is not None and max_value < 0:
+        if max_value is not None and max_value <= 0:
+            # a zero upper bound selects the negative half-line, as a
+            # zero lower bound selects the positive one
             min_value = -dtype(fi.max)
         else:
             min_value = min_pos_value
